@@ -30,6 +30,8 @@ type c32SeqStore struct {
 	blocks map[string]*types.BlockDetail
 	chain  []string // current best chain (hashes) per height
 	nonce  int64
+	sizes  map[string]int // reported stored size per block (the value the batch limit uses); absent = the real encoded size
+	big    int            // reported size of the blocks created by the current grow (0 = real)
 }
 
 func (s *c32SeqStore) newBlock() *types.BlockDetail {
@@ -43,13 +45,17 @@ func (s *c32SeqStore) newBlock() *types.BlockDetail {
 	d := &types.BlockDetail{Block: b, Receipts: []*types.ReceiptData{{Ty: types.ExecOk}}}
 	h := string(b.Hash(s.cfg))
 	s.blocks[h] = d
+	if s.big > 0 {
+		s.sizes[h] = s.big
+	}
 	return d
 }
 
 // grow appends n add records; with reorg, first deletes up to two tip blocks (delete records) and re-adds.
-func (s *c32SeqStore) grow(n int, reorg bool) int64 {
+func (s *c32SeqStore) grow(n int, reorg bool, bigKiB int) int64 {
 	s.mu.Lock()
 	defer s.mu.Unlock()
+	s.big = bigKiB * 1024
 	if reorg {
 		for k := 0; k < 2 && len(s.chain) > 1; k++ {
 			top := s.chain[len(s.chain)-1]
@@ -101,6 +107,9 @@ func (s *c32SeqStore) LoadBlockBySequence(seq int64) (*types.BlockDetail, int, e
 		return nil, 0, types.ErrHeightNotExist
 	}
 	d := s.blocks[string(s.recs[seq].Hash)]
+	if sz, ok := s.sizes[string(s.recs[seq].Hash)]; ok {
+		return d, sz, nil
+	}
 	return d, types.Size(d), nil
 }
 
@@ -219,6 +228,7 @@ type c32Op struct {
 	N     int    `json:"n,omitempty"`
 	Reorg bool   `json:"reorg,omitempty"`
 	Minus bool   `json:"minusOne,omitempty"` // notify with -1, as disconnectBlock does
+	Big   int    `json:"bigKiB,omitempty"`   // stored size the sequence store reports for these blocks (batches are cut at 1 MiB)
 	Name  string `json:"name,omitempty"`
 	Type  int32  `json:"type,omitempty"`
 	Start bool   `json:"start,omitempty"` // register with an explicit resume point (LastSequence/LastHeight/LastBlockHash)
@@ -260,7 +270,8 @@ func c32Gen(t *rapid.T) c32Case {
 			// a delivery fails, and the subscriber re-registers while the task is still backing off; the chain keeps growing
 			c.Ops = append(c.Ops, c32Op{Op: "failresub", Name: rapid.SampledFrom(names).Draw(t, "whoFR"), N: rapid.IntRange(1, 12).Draw(t, "nFR")})
 		case "grow":
-			c.Ops = append(c.Ops, c32Op{Op: "grow", N: rapid.IntRange(1, 25).Draw(t, "n"), Reorg: rapid.IntRange(0, 3).Draw(t, "reorg") == 0, Minus: rapid.IntRange(0, 4).Draw(t, "minus") == 0})
+			c.Ops = append(c.Ops, c32Op{Op: "grow", N: rapid.IntRange(1, 25).Draw(t, "n"), Reorg: rapid.IntRange(0, 3).Draw(t, "reorg") == 0, Minus: rapid.IntRange(0, 4).Draw(t, "minus") == 0,
+				Big: rapid.SampledFrom([]int{0, 0, 0, 150, 300, 400, 600, 1100}).Draw(t, "bigKiB")})
 		case "sub":
 			c.Ops = append(c.Ops, c32Op{Op: "sub", Name: "b", Type: int32(rapid.IntRange(0, 1).Draw(t, "typeB")), Start: rapid.Bool().Draw(t, "startB")})
 		case "resub":
@@ -271,8 +282,8 @@ func c32Gen(t *rapid.T) c32Case {
 	return c
 }
 
-func c32Run(t lib.TB, test string, c c32Case) (failThenOK, deactResume, resubInBackoff bool) {
-	ss := &c32SeqStore{cfg: c32Cfg, blocks: map[string]*types.BlockDetail{}}
+func c32Run(t lib.TB, test string, c c32Case) (failThenOK, deactResume, resubInBackoff, sizeCut bool) {
+	ss := &c32SeqStore{cfg: c32Cfg, blocks: map[string]*types.BlockDetail{}, sizes: map[string]int{}}
 	kv := &c32KV{m: map[string][]byte{}}
 	post := &c32Post{scripts: map[string][]bool{}}
 	for k, v := range c.Scripts {
@@ -297,7 +308,7 @@ func c32Run(t lib.TB, test string, c c32Case) (failThenOK, deactResume, resubInB
 	for _, op := range c.Ops {
 		switch op.Op {
 		case "grow":
-			last := ss.grow(op.N, op.Reorg)
+			last := ss.grow(op.N, op.Reorg, op.Big)
 			if op.Minus {
 				p.UpdateSeq(-1)
 			} else {
@@ -341,7 +352,7 @@ func c32Run(t lib.TB, test string, c c32Case) (failThenOK, deactResume, resubInB
 				}
 			}
 			post.mu.Unlock()
-			p.UpdateSeq(ss.grow(op.N, false))
+			p.UpdateSeq(ss.grow(op.N, false, 0))
 			// pacing only: wait (bounded) until that failed attempt was made, then re-register at once, inside the back-off
 			failedNow := false
 			for i := 0; i < 100 && !failedNow; i++ {
@@ -362,9 +373,9 @@ func c32Run(t lib.TB, test string, c c32Case) (failThenOK, deactResume, resubInB
 			if failedNow {
 				resubInBackoff = true
 			}
-			p.UpdateSeq(ss.grow(2, false))
+			p.UpdateSeq(ss.grow(2, false, 0))
 			time.Sleep(200 * time.Millisecond)
-			p.UpdateSeq(ss.grow(1, false))
+			p.UpdateSeq(ss.grow(1, false, 0))
 		case "resub":
 			if s := subs[op.Name]; s != nil {
 				if err := p.addSubscriber(s); err != nil {
@@ -407,6 +418,17 @@ func c32Run(t lib.TB, test string, c c32Case) (failThenOK, deactResume, resubInB
 				lib.Violation(t, "C32", test, map[string]interface{}{"case": c, "attempts": atts[:i+1]}, "subscriber %s registered with resume point %d but its first acknowledged payload starts at %d", a.Name, r, a.Nums[0])
 			}
 			lastAck[a.Name] = a.Nums[len(a.Nums)-1]
+			// classification only: was this payload cut by the 1 MiB batch limit (the next record existed but did not fit)?
+			if s := subs[a.Name]; s != nil && PushType(s.Type) == PushBlock {
+				sum := 0
+				for _, n := range a.Nums {
+					_, sz, _ := ss.LoadBlockBySequence(n)
+					sum += sz
+				}
+				if _, sz, err := ss.LoadBlockBySequence(a.Nums[len(a.Nums)-1] + 1); err == nil && sum+sz >= pushMaxSize {
+					sizeCut = true
+				}
+			}
 		}
 		for name := range subs {
 			if b, err := kv.GetKey(calcLastPushSeqNumKey(name)); err == nil {
@@ -436,7 +458,10 @@ func TestPropPushOrderedGapFree(t *testing.T) {
 	rapid.Check(t, func(t *rapid.T) {
 		c := c32Gen(t)
 		lib.Eval()
-		f, d, rb := c32Run(t, "TestPropPushOrderedGapFree", c)
+		f, d, rb, sc := c32Run(t, "TestPropPushOrderedGapFree", c)
+		if sc {
+			lib.Class("payload_cut_by_size_limit")
+		}
 		if rb {
 			lib.Class("reregistered_during_backoff")
 		}
